@@ -178,6 +178,26 @@ def check(case, out):
             out.fail("shape", klass + ";one-element-sequence", f"curve({form} of one node {lparams[k1]}) returned {v1!r}: not one point per node")
         else:
             compare(v1[0], refvals[k1], f"one-element {form} u={lparams[k1]}")
+    # (b'') the number of nodes is the caller's business: sequences whose length coincides with a size of the
+    # curve (number of control points, degree + 1, number of knots) are sequences like any other
+    for want in sorted({ref.n, ref.p + 1, len(ref.U)}):
+        if want < 2:
+            continue
+        idx = [(3 * i + 1) % len(lparams) for i in range(want)]
+        sub = [lparams[i] for i in idx]
+        try:
+            vsub = curve(list(sub) if exact else np.array(sub, dtype="float64"))
+            nsub = len(vsub)
+        except ValueError as exc:
+            out.fail("raises-inside", klass, f"sequence of {want} nodes raised ValueError {exc}")
+            continue
+        except TypeError:
+            nsub = -1
+        if nsub != want:
+            out.fail("shape", klass, f"sequence of {want} nodes gave {nsub} points")
+            continue
+        for i, val in zip(idx, vsub):
+            compare(val, refvals[i], f"sequence of {want} nodes (npts={ref.n}, degree={ref.p}) u={lparams[i]}")
     # (c) outside
     uo = case["outside"] if exact else lib.conv_param(case["outside"], num)
     if not exact and ref.U[0] <= oracle.frac(uo) <= ref.U[-1]:
